@@ -243,19 +243,29 @@ func (e *Engine) decide(cond *Term) bool {
 	if traceQueries && e.st.Paths <= 12 {
 		fmt.Fprintf(os.Stderr, "Q path=%d %s\n", e.st.Paths, cond.s)
 	}
-	ft := e.check(cond)
-	if ft == "unknown" {
+	ncond := tNot(cond)
+	ft, ff := e.sol.CheckBoth(cond, ncond)
+	e.st.FeasQueries += 2
+	for _, r := range []string{ft, ff} {
+		switch r {
+		case "sat":
+			e.st.Sat++
+		case "unsat":
+			e.st.Unsat++
+		default:
+			e.st.UnknownQ++
+		}
+	}
+	if ft == "unknown" || ff == "unknown" {
 		panic(pathEnd{"unknown", "solver unknown on branch condition"})
 	}
 	if ft == "unsat" {
-		// the path condition is satisfiable, so the negation is feasible
+		if ff != "sat" {
+			panic(pathEnd{"infeasible", "both branches infeasible"})
+		}
 		e.taken = append(e.taken, false)
-		e.assertPC(tNot(cond))
+		e.assertPC(ncond)
 		return false
-	}
-	ff := e.check(tNot(cond))
-	if ff == "unknown" {
-		panic(pathEnd{"unknown", "solver unknown on branch condition"})
 	}
 	if ff == "sat" {
 		alt := append(append(make([]bool, 0, len(e.taken)+1), e.taken...), false)
